@@ -527,7 +527,13 @@ class MirFile:
                 while j < n and self.lines[j] != "}":
                     j += 1
                 name = self._header_name(ln)
-                self.items.setdefault(name, (i, j))
+                # macro-generated impls can share one header name (same `impl at` span): keep all, suffix `#n`
+                if name in self.items:
+                    k = 2
+                    while "%s#%d" % (name, k) in self.items:
+                        k += 1
+                    name = "%s#%d" % (name, k)
+                self.items[name] = (i, j)
                 self.order.append(name)
                 i = j + 1
             else:
